@@ -7,9 +7,9 @@ PROP = dict(
                     "compared with a reference model at every quiescent point. Samples the space of scripts and lets the Go scheduler/timers add "
                     "their own interleavings; does not enumerate interleavings and does not prove absence."),
         rule=("rapid-drawn script over a model Ethereum chain (blocks with 0-3 LogStateUpdate events, L2 numbers strictly increasing along the "
-              "canonical chain): mine, deliver queued logs, advance the finalised height, reorg depth 1-3 of the non-finalised suffix (Removed copies of "
+              "canonical chain): mine, deliver queued logs, advance the finalised height, reorg depth 1-4 of the non-finalised suffix (Removed copies of "
               "every delivered log, ascending or descending, then the new logs), subscription error, unreachable node with missed logs, failing "
-              "resubscriptions/FinalisedHeight/ChainID/LatestHeight/FilterStateUpdate, chain changes during the catch-up scan, chunk sizes 1-50, "
+              "resubscriptions/FinalisedHeight/ChainID/LatestHeight/FilterStateUpdate, chain changes during the catch-up scan, chunk sizes 1-50, closing phase in which finality creeps to the tip block by block, "
               "restart via Run or CatchUpL1Head (same DB, same or fresh Blockchain). Non-trivial = a Removed copy is delivered for a buffered event, "
               "or finality advances past >= 2 buffered L1 blocks at once, or a restart/resubscription happens with a non-empty buffer; distinct = "
               "distinct SHA-256 of the rendered script."),
